@@ -4,7 +4,8 @@ from vlib.core import Case
 
 ID = "C20"
 LEAN_MODULE = "Ctrmml.Properties.C20"
-THEOREMS = ["C20_conf_roundtrip", "C20_conf_terminates", "C20_conf_no_oob", "C20_every_tree_has_a_rendering"]
+THEOREMS = ["C20_conf_roundtrip", "C20_conf_terminates", "C20_conf_no_oob", "C20_conf_total", "C20_every_tree_has_a_rendering",
+            "C20_D14_before_fix", "C20_D17_before_fix"]
 LEVEL = "proof"
 STREAM = "conf.tree"
 CHUNK = 500
